@@ -7,7 +7,7 @@ runs these very definitions on IEEE doubles against the real tools and estimator
 
 ★ = holds for ANY numeric carrier with arbitrary arithmetic and comparisons — hence also for the doubles the code
 computes with: these are facts about control flow (check first, spend last, nothing in between touches an
-accountant).  The multi-cell theorem needs one arithmetic fact — a history that fits the ceiling still fits when its
+accountant).  The multi-cell theorems need one arithmetic fact — a history that fits the ceiling still fits when its
 last spend is dropped — which is a hypothesis of the ★ version and is proved over ℝ (monotonicity of `total`, C05).
 -/
 import DPL.Model.Charged
@@ -92,6 +92,73 @@ theorem multi_cell_charge_gen (w : World α) (explicit : Option Nat) (ε : α) (
     rw [this]
     rfl
 
+/-- ★ multi_quantile_charge (any carrier, same closure hypothesis): a LIST of `m ≥ 1` quantiles over an axis with
+`n` output cells.  The up-front `_check_cells(ε, ε/m/n, m·n)` tests exactly the `m·n` spends that will be recorded;
+each quantile's own `_wrap_axis` up-front check and every per-cell check test a PREFIX of that sequence.  Hence: if the
+up-front check refuses, nothing ran and nothing changed; if it accepts, the query is never refused part-way — all
+`m·n` spends of `ε/m/n` are appended to the resolved accountant and the call returns. -/
+theorem multi_quantile_charge_gen (w : World α) (explicit : Option Nat) (ε : α) (bodies : List (List (Body ρ)))
+    (n : Nat) (a : Acc α) (hm : 0 < bodies.length) (hlen : ∀ bs ∈ bodies, bs.length = n)
+    (hi : w.accs[resolve w explicit]? = some a)
+    (hmono : ∀ l sp, Fits a (l ++ [sp]) → Fits a l)
+    (hmin : ¬ (0 < ε / (bodies.length : α) / (n : α) ∧ ε / (bodies.length : α) / (n : α) < a.minEps))
+    (hv : checkEpsDelta (ε / (bodies.length : α)) 0 = .ok ()) :
+    (∀ x, checkCells a ε (ε / (bodies.length : α) / (n : α)) (bodies.length * n) = .error x →
+        multiQuantileQ explicit ε true bodies w = ⟨.error x, w.accs, 0⟩) ∧
+    (checkCells a ε (ε / (bodies.length : α) / (n : α)) (bodies.length * n) = .ok () →
+        ∃ rs k, multiQuantileQ explicit ε true bodies w =
+          ⟨.ok rs, w.accs.set (resolve w explicit)
+            { a with spent := a.spent ++ List.replicate (bodies.length * n) ⟨ε / (bodies.length : α) / (n : α), 0⟩ },
+            k⟩) := by
+  have hhead : (bodies.headD []).length = n := by
+    cases bodies with
+    | nil => simp at hm
+    | cons b bs => exact hlen b (by simp)
+  have hhead' : (bodies.head?.getD []).length = n := by simpa using hhead
+  constructor
+  · intro x hx
+    simp [multiQuantileQ, cellsQ, hhead', getAcc_some w _ a hi, hx]
+  · intro hc
+    obtain ⟨_, hfit⟩ := checkCells_ok a ε _ _ hc
+    simp only [multiQuantileQ, cellsQ, hhead, if_true, getAcc_some w _ a hi, hc]
+    have hb := runAll_blocks (resolve w explicit) n ⟨ε / (bodies.length : α) / (n : α), 0⟩
+      (bodies.map (fun bs => wrapAxisQ explicit (ε / (bodies.length : α)) bs)) w a hi ?_
+    · obtain ⟨rs, k, h⟩ := hb
+      refine ⟨rs, k, ?_⟩
+      rw [h]
+      simp [Acc.plus]
+    · intro j hj w' hd hacc
+      have hj' : j < bodies.length := by simpa using hj
+      have hl : bodies[j].length = n := hlen _ (List.getElem_mem hj')
+      have hres : resolve w' explicit = resolve w explicit := by simp [resolve, hd]
+      set aj := Acc.plus a (List.replicate (j * n) ⟨ε / (bodies.length : α) / (n : α), 0⟩) with haj
+      have hi' : w'.accs[resolve w' explicit]? = some aj := by rw [hres]; exact hacc
+      -- the prefix of the whole sequence that ends with quantile j's cells fits
+      have hk : bodies.length * n = (j + 1) * n + (bodies.length - (j + 1)) * n := by
+        rw [← Nat.add_mul]; congr 1; omega
+      rw [hk] at hfit
+      have hpre := fits_drop_replicate a hmono a.spent _ ((j + 1) * n) _ hfit
+      have hsp : aj.spent ++ List.replicate n ⟨ε / (bodies.length : α) / (n : α), 0⟩ =
+          a.spent ++ List.replicate ((j + 1) * n) ⟨ε / (bodies.length : α) / (n : α), 0⟩ := by
+        simp only [haj, Acc.plus, List.append_assoc, List.replicate_append_replicate]
+        congr 2
+        rw [Nat.succ_mul]
+      have hfitj : Fits aj (aj.spent ++ List.replicate n ⟨ε / (bodies.length : α) / (n : α), 0⟩) := by
+        rw [hsp]; exact hpre
+      have hcj := checkCells_of_fits aj (ε / (bodies.length : α)) _ n hv hfitj
+      have hgen := multi_cell_charge_gen w' explicit (ε / (bodies.length : α)) bodies[j] aj hi'
+        (fun l sp h => hmono l sp h) (by rw [hl]; exact hmin)
+      rw [hl] at hgen
+      have hq := hgen.2 hcj
+      refine ⟨bodies[j].map (·.release), (bodies[j].map (·.calls)).sum, ?_⟩
+      simp only [List.getElem_map]
+      rw [hq, hres]
+      congr 2
+      show Acc.plus aj _ = _
+      rw [haj, plus_plus, List.replicate_append_replicate]
+      congr 2
+      rw [Nat.succ_mul]
+
 /-- ★ model_charge_once: a `fit` whose sub-queries leave the caller's accountants alone (they run on throw-away
 accountants).  Refused by the check: nothing ran, nothing changed.  Otherwise the sub-queries and the body's
 mechanisms run and exactly one spend `(ε, 0)` is appended to the accountant that was resolved when the estimator
@@ -155,34 +222,28 @@ theorem multi_cell_charge (w : World ℝ) (explicit : Option Nat) (ε : ℝ) {ρ
   simp [List.map_replicate, List.sum_replicate]
   field_simp
 
-/-- multi-quantile over an axis (`m` quantiles × `n` cells), over ℝ: the check that quantile `j`'s own `_wrap_axis`
-performs first — `check(ε/m, 0)` after the `j·n` cell spends of the earlier quantiles — is implied by the
-up-front `check(ε, 0)`: every one of the three sums of `total` only shrinks when one spend of `ε` is replaced by
-`j·n` spends of `ε/m/n` and one of `ε/m`.  (With the cells' own checks covered by `multi_cell_charge`, a
-multi-quantile query is therefore never refused part-way OVER ℝ.  In IEEE doubles this particular step can fail by
-one rounding at an exactly fitting budget — `quantile(X(4×7), [0.5, 0.1], epsilon=0.3, axis=0)` on
-`BudgetAccountant(0.3, 0)` —, which the check reports as a finding; the faithful model run on doubles reproduces it.) -/
-theorem multi_quantile_inner_check (a : Acc ℝ) (hs0 : 0 ≤ a.slack) (hs1 : a.slack ≤ 1) (ε : ℝ) (m n j : Nat)
-    (hn : 0 < n) (hj : j < m) (hε : 0 < ε)
-    (hmin : ¬ (0 < ε / (m : ℝ) ∧ ε / (m : ℝ) < a.minEps))
-    (hc : a.check ε 0 = .ok ()) :
-    (Acc.plus a (List.replicate (j * n) ⟨ε / (m : ℝ) / (n : ℝ), 0⟩)).check (ε / (m : ℝ)) 0 = .ok () := by
-  have hm : 0 < m := Nat.lt_of_le_of_lt (Nat.zero_le _) hj
-  have hm' : (0 : ℝ) < m := by exact_mod_cast hm
+/-- multi_quantile_charge over ℝ (any slack): a list of `m ≥ 1` quantiles over an axis with `n ≥ 1` cells is either
+refused up front (nothing ran, nothing changed) or charged completely — never refused part-way — and the `m·n`
+recorded spends of `ε/m/n` add up to exactly `ε`. -/
+theorem multi_quantile_charge (w : World ℝ) (explicit : Option Nat) (ε : ℝ) {ρ : Type} (bodies : List (List (Body ρ)))
+    (n : Nat) (a : Acc ℝ) (hm : 0 < bodies.length) (hn : 0 < n) (hlen : ∀ bs ∈ bodies, bs.length = n)
+    (hi : w.accs[resolve w explicit]? = some a) (hε : 0 < ε) (hs0 : 0 ≤ a.slack) (hs1 : a.slack ≤ 1)
+    (hmin : ¬ (0 < ε / (bodies.length : ℝ) / (n : ℝ) ∧ ε / (bodies.length : ℝ) / (n : ℝ) < a.minEps)) :
+    (∀ x, checkCells a ε (ε / (bodies.length : ℝ) / (n : ℝ)) (bodies.length * n) = .error x →
+        multiQuantileQ explicit ε true bodies w = ⟨.error x, w.accs, 0⟩) ∧
+    (checkCells a ε (ε / (bodies.length : ℝ) / (n : ℝ)) (bodies.length * n) = .ok () →
+        ∃ rs k, multiQuantileQ explicit ε true bodies w =
+          ⟨.ok rs, w.accs.set (resolve w explicit)
+            { a with spent := a.spent ++ List.replicate (bodies.length * n) ⟨ε / (bodies.length : ℝ) / (n : ℝ), 0⟩ },
+            k⟩) ∧
+    ((List.replicate (bodies.length * n) (⟨ε / (bodies.length : ℝ) / (n : ℝ), 0⟩ : Spend ℝ)).map (·.eps)).sum = ε := by
+  have hm' : (0 : ℝ) < bodies.length := by exact_mod_cast hm
   have hn' : (0 : ℝ) < n := by exact_mod_cast hn
-  have he : 0 < ε / (m : ℝ) := div_pos hε hm'
-  have hcpos : 0 < ε / (m : ℝ) / (n : ℝ) := div_pos he hn'
-  have hk : (((j * n : ℕ)) : ℝ) * (ε / (m : ℝ) / (n : ℝ)) = (j : ℝ) * (ε / (m : ℝ)) := by
-    push_cast; field_simp
-  have hjm : (j : ℝ) + 1 ≤ m := by exact_mod_cast hj
-  have hsum : (((j * n : ℕ)) : ℝ) * (ε / (m : ℝ) / (n : ℝ)) + ε / (m : ℝ) ≤ ε := by
-    rw [hk]
-    have : ((j : ℝ) + 1) * (ε / (m : ℝ)) ≤ (m : ℝ) * (ε / (m : ℝ)) := mul_le_mul_of_nonneg_right hjm he.le
-    have h2 : (m : ℝ) * (ε / (m : ℝ)) = ε := by field_simp
-    linarith
-  have hfit := fits_split_real a hs0 hs1 a.spent ε _ _ (j * n) hcpos he hsum (fits_of_check a ε 0 hc)
-  exact check_of_fits (Acc.plus a (List.replicate (j * n) ⟨ε / (m : ℝ) / (n : ℝ), 0⟩)) (ε / (m : ℝ)) 0
-    (checkEpsDelta_of_pos _ he) hmin hfit
+  have h := multi_quantile_charge_gen w explicit ε bodies n a hm hlen hi (fits_prefix_real a hs0 hs1) hmin
+    (checkEpsDelta_of_pos _ (div_pos hε hm'))
+  refine ⟨h.1, h.2, ?_⟩
+  simp [List.map_replicate, List.sum_replicate]
+  field_simp
 
 /-! ## non-vacuity -/
 
